@@ -51,6 +51,17 @@ CLAIMED = {
              "are not exercised; the surviving-bin set is computed with the package's own filters",
         technique="contract-based: run-time contracts with a tiling oracle on seeded random bin tables (bounded stand-in)",
         design_ref="8 (C03)"),
+    "C08": dict(
+        category="other",
+        text="Run-time contracts (bounded stand-in) over real files: write -> read -> write -> read for tab, bed3, bed4, "
+             "interval list and chr:start-end text (identical coordinates, names, integer columns, numbers to 6 significant "
+             "digits, rows in natural chromosome/start/end order, byte-identical second write); auto-detection yields the "
+             "explicit parser's table for names of letters/digits/underscores; hand-written GFF, SEG, interval-list, text and "
+             "Picard per-target files with known 1-based coordinates read to 0-based half-open; write_seg -> parse_seg round "
+             "trip for 1..4 samples; sorter_chrom against the natural order 1..22, X, Y, M.",
+        note="csv formatting/parsing and the regex engine are library code; VCF reading is covered under C18",
+        technique="contract-based: run-time contracts on generated tables through real file I/O (bounded stand-in)",
+        design_ref="8 (C08)"),
     "C10": dict(
         category="other",
         text="Frames: every contract's arguments are deep-compared before/after each call (run time) and, in the deductive "
@@ -114,6 +125,17 @@ CLAIMED = {
         technique="contract-based: run-time contracts with a statement-derived partition oracle on seeded random bin tables "
                   "(bounded stand-in)",
         design_ref="8 (C16)"),
+    "C17": dict(
+        category="other",
+        text="Run-time contracts (bounded stand-in) on the real do_segmetrics (each statistic recomputed independently over "
+             "exactly the bins overlapping the segment; spread statistics on deviations from the segment log2; PI = alpha/2 "
+             "and 1-alpha/2 percentiles with pi_lo <= median <= pi_hi; bootstrap CI ordered inside the bins' range and "
+             "reproducible; input columns unchanged), p_adjust_bh against the Benjamini-Hochberg step-up definition on "
+             "p-vectors of length 1..200 with ties, 0 and 1, and do_bintest (two-sided normal tail of (log2 - segment "
+             "mean)/sqrt(1-weight), BH-adjusted, exactly the bins below alpha, on-target only when asked).",
+        note="numpy/scipy definitions of std, sem, t-test, percentile and the normal cdf are the reference, not proved",
+        technique="contract-based: run-time contracts with independent recomputation on seeded random tables (bounded stand-in)",
+        design_ref="8 (C17)"),
     "C19": dict(
         category="other",
         text="Deductive: _width2wing (window half-width always in [1, n-1]) discharged by SMT for all lengths and widths. "
